@@ -117,8 +117,9 @@ def run_case(c):
     thick = tuple(pot.slice_thickness)
     cumul = 0
     for first in range(0, n):
-        for last in range(first + 1, n + 1):
-            win = list(make(kind, n, c["ep"]).generate_slices(first, last))
+        for last_arg in list(range(first + 1, n + 1)) + [None]:  # None: the open-ended window the library itself uses (first_slice=k only)
+            last = n if last_arg is None else last_arg
+            win = list(make(kind, n, c["ep"]).generate_slices(first, last) if last_arg is not None else make(kind, n, c["ep"]).generate_slices(first_slice=first))
             tr += 1
             if len(win) != last - first:
                 bad("slices/window-length/" + tag, "generate_slices(%d, %d) yields %d slices" % (first, last, len(win)))
@@ -135,7 +136,7 @@ def run_case(c):
                 for lazy in (False, True):
                     tr += 1
                     try:
-                        b = make(kind, n, c["ep"]).build(first, last, lazy=lazy)
+                        b = make(kind, n, c["ep"]).build(first, last_arg, lazy=lazy)
                         barr = _arr(b)
                     except Exception as e:  # noqa: BLE001
                         bad("build/window-raises/%s/%s" % ("lazy" if lazy else "eager", tag), "build(%d, %d, lazy=%r) raised %s: %s" % (first, last, lazy, type(e).__name__, str(e)[:120]))
